@@ -13,8 +13,9 @@ META = {
             "and consumes exactly total(trace), B < thr ends out of fuel after a proper prefix; consumed + remaining = B at every "
             "point and after every outcome; consumption does not depend on the budget; a nested evaluation continues with the "
             "caller's tracker so costs add up. The per-instruction cost table is regenerated from vm/fuel.rs on every run. The tie "
-            "runs ~1650 (quick) / ~25000 (thorough) programs (loops, macros, call blocks, imports, includes, inheritance, super, self.block, macros "
-            "called from Rust, failing renders, expressions, random compositions) on the real engine: the executed trace is "
+            "runs ~2400 (quick) / ~26000 (thorough) programs (loops, macros, call blocks, imports, includes, inheritance, super, self.block, macros "
+            "called from Rust, State::render_block/call_macro from Rust functions, every nested-evaluation edge in emit position and in 12 "
+            "expression/captured positions, failing renders, expressions, random compositions) on the real engine: the executed trace is "
             "recorded through a verif_hooks callback, the threshold is found by bisection, every budget in [0, thr+8] and the "
             "extremes 2^31, 2^32, 2^63-1, 2^63, 2^63+1, 2^64-2, 2^64-1 are rendered with render_captured and compared with the "
             "model (outcome, fuel_levels, number of dispatched instructions, levels seen by probe() calls inside nested "
@@ -218,7 +219,10 @@ def parse_model(lines):
 
 def run(r):
     r.rule = ("fixed families (straight-line, branches, loops with 0..n iterations, macros/call blocks/imports/macros called from "
-              "Rust, includes, inheritance with super()/self.block()/blocks in loops, failing renders, expressions) with a work "
+              "Rust, includes, inheritance with super()/self.block()/blocks in loops, failing renders, expressions; a matrix of nested-evaluation "
+              "edges {macro, imported macro, caller(), super() over 2 and 3 levels, self.block(), render_block, call_macro, apply, loop recursion} x 13 "
+              "positions {emit, filter, set, concat, if, set block, filter block, list, test, ternary, with, argument, in a loop} and of "
+              "include / call block / {{ super() }} statements x 8 surroundings {plain, set block, filter block, autoescape, loop, with, if, ...}) with a work "
               "parameter k inside the nested evaluation, plus seeded random compositions; per program every budget in [0, thr+8] "
               "and 7 extremes up to 2^64-1; an evaluation = one render with a budget; a program is non-trivial when its threshold > 0")
     r.assumptions = ["the VM is abstracted to its executed instruction trace; that fuel does not influence which instructions run "
